@@ -240,7 +240,7 @@ func (in *instance) reset() {
 	in.core.outs = map[string]outcome{}
 	in.sessBase = len(in.core.sessions)
 	for p, r := range in.core.conns {
-		if r.closed {
+		if r.closed || r.claimed {
 			delete(in.core.conns, p)
 		}
 	}
@@ -403,7 +403,7 @@ func (in *instance) doOpen(idx, ip int) string {
 	cl := &client{nc: nc, c: conn.NewConn(bufio.NewReader(nc), nc), port: port}
 	in.clients[idx] = cl
 	if !in.core.waitFor(watchdog, func() bool {
-		r, ok := in.core.conns[port]
+		r, ok := in.core.conns[nc.LocalAddr().String()]
 		if ok && !r.closed && !r.claimed {
 			r.claimed = true
 			cl.rec = r
